@@ -57,6 +57,10 @@ func aperMkType(in map[string]interface{}) (reflect.Type, int) {
 		fs = append(fs, reflect.StructField{Name: fmt.Sprintf("P%d", i), Type: reflect.TypeOf(true)})
 	}
 	fs = append(fs, reflect.StructField{Name: "V", Type: ft, Tag: tagOf(str(in, "tag"))})
+	// "post": n BOOLEAN fields AFTER the value: whatever the codec leaves behind (bit cursor, alignment) shows in them
+	for i := 0; i < int(num(in, "post")); i++ {
+		fs = append(fs, reflect.StructField{Name: fmt.Sprintf("Q%d", i), Type: reflect.TypeOf(true)})
+	}
 	return reflect.StructOf(fs), pre
 }
 
@@ -81,6 +85,9 @@ func init() {
 		v := reflect.New(t).Elem()
 		for i := 0; i < pre; i++ {
 			v.Field(i).SetBool(i%2 == 0) // leading bits 1,0,1,0,... so that a wrong shift shows
+		}
+		for i := 0; i < int(num(in, "post")); i++ {
+			v.Field(pre + 1 + i).SetBool(i%2 == 0)
 		}
 		f := v.Field(pre)
 		switch str(in, "kind") {
@@ -143,6 +150,15 @@ func init() {
 			}
 		}
 		out["prebits"] = pb
+		qb := ""
+		for i := 0; i < int(num(in, "post")); i++ {
+			if v.Elem().Field(pre + 1 + i).Bool() {
+				qb += "1"
+			} else {
+				qb += "0"
+			}
+		}
+		out["postbits"] = qb
 		switch str(in, "kind") {
 		case "int":
 			out["int"] = strconv.FormatInt(f.Int(), 10)
